@@ -13,6 +13,7 @@ package client
 // line: E id profile seed k=v ... = fact=v ...
 
 import (
+	"runtime"
 	"bytes"
 	"crypto/md5"
 	"encoding/json"
@@ -108,6 +109,9 @@ type veEnv struct {
 	corruptOf         string // the first byte of this file is damaged on the way, the first corruptN times it is sent
 	corruptN          int
 	slowOpenAfterFail time.Duration
+	minAge            time.Duration // the scanner's minimum age (a version younger than that must not be on the wire)
+	youngSent         int
+	stopAtOpen        int    // the stop request arrives while the k-th file is being opened (for hashing)
 	failOpenOf        string // the next failOpenN opens of this file fail once failOpenArmed is set (unreadable for a moment)
 	failOpenN         int
 	failOpenArmed     int32
@@ -162,6 +166,12 @@ func (e *veEnv) ev(kind, name, info string) {
 	if e.stopAfterTx > 0 && kind == "txret" {
 		e.stopAt = n + e.stopAfterTx - 1
 		e.stopAfterTx = 0
+	}
+	if e.stopAtOpen > 0 && kind == "open" {
+		e.stopAtOpen--
+		if e.stopAtOpen == 0 {
+			e.stopAt = n
+		}
 	}
 	if e.stopAtPoll && kind == "poll" && name == "ok" {
 		// the stop request arrives while the answer to a poll is on its way back
@@ -231,11 +241,15 @@ func (s *veStore) GetOpener() sts.Open {
 		slow := s.e.slowOpenAfterFail > 0 && s.e.failedSeen[f.GetName()]
 		d := s.e.slowOpenAfterFail
 		failNow := false
+		announce := s.e.stopAtOpen > 0
 		if s.e.failOpenOf != "" && f.GetName() == s.e.failOpenOf && atomic.LoadInt32(&s.e.failOpenArmed) == 1 && s.e.failOpenN > 0 {
 			s.e.failOpenN--
 			failNow = true
 		}
 		s.e.mu.Unlock()
+		if announce {
+			s.e.ev("open", f.GetName(), "")
+		}
 		if failNow {
 			s.e.ev("openfail", f.GetName(), "the file cannot be read at this moment")
 			return nil, errors.New("open " + f.GetName() + ": permission denied (injected)")
@@ -420,6 +434,9 @@ func (e *veEnv) transmit(p sts.Payload) (int, error) {
 			return i, errors.New("source read failed")
 		}
 		e.mu.Lock()
+		if e.minAge > 0 && time.Since(w.t) < e.minAge-100*time.Millisecond {
+			e.youngSent++
+		}
 		e.sentBytes[w.name] += w.end - w.beg
 		e.txRanges[w.name] = append(e.txRanges[w.name], [2]int64{w.beg, w.end})
 		e.mu.Unlock()
@@ -685,6 +702,7 @@ type veScenario struct {
 	crashAfterTx      int           // crash at the k-th interface event counted from the first answer to a data request
 	slowOpenAfterFail time.Duration // re-reading a file whose validation failed takes this long
 	failOpenN         int           // profile swapfail: the swapped-in version cannot be opened this many times
+	stopAtOpen        int           // profile stophash: the stop request arrives while the k-th file is opened for hashing
 	failHeadOf        string        // the request carrying the first part of this file is refused failHeadN times
 	failHeadN         int
 	corruptOf         string        // this file fails validation corruptN times in a row (damaged on the way), then goes through
@@ -722,6 +740,8 @@ func vePollMax(sc veScenario) int {
 	}
 	return 1 + (len(sc.files)+sc.threads+int(sc.payload))%3
 }
+
+func units200(r *gen.Rand) int64 { return int64(150 + r.Intn(100)) }
 
 func vePollInterval(sc veScenario) time.Duration {
 	if sc.pollInterval > 0 {
@@ -778,6 +798,14 @@ func veRun(tmp string, sc veScenario) string {
 	os.WriteFile(marker, []byte(fmt.Sprintf("E %s %s files=%d del=%v threads=%d payload=%d chunk=%d faults=%d stop=%s\n", sc.id, sc.profile,
 		len(sc.files), sc.del, sc.threads, sc.payload, sc.chunk, len(sc.faults), sc.stopKind)), 0o644)
 	defer os.Remove(marker)
+	// a scenario is over in well under a minute: if one is still running after three, write the stacks of all
+	// goroutines next to the build output (diagnosis of a hang seen once in the thorough tier)
+	wd := time.AfterFunc(3*time.Minute, func() {
+		buf := make([]byte, 1<<23)
+		n := runtime.Stack(buf, true)
+		os.WriteFile(filepath.Join(filepath.Dir(filepath.Dir(tmp)), "hang-"+sc.id+".txt"), buf[:n], 0o644)
+	})
+	defer wd.Stop()
 	root := filepath.Join(tmp, "e2e"+sc.id)
 	os.RemoveAll(root)
 	defer os.RemoveAll(root)
@@ -787,7 +815,7 @@ func veRun(tmp string, sc veScenario) string {
 		acked: map[string]int64{}, sentBytes: map[string]int64{}, txRanges: map[string][][2]int64{},
 		crashed: make(chan bool, 1), block: make(chan bool),
 		faults: append([]veFault{}, sc.faults...), pollFault: append([]string{}, sc.pollFault...),
-		corruptOf: sc.corruptOf, corruptN: sc.corruptN, failOpenN: sc.failOpenN,
+		corruptOf: sc.corruptOf, corruptN: sc.corruptN, failOpenN: sc.failOpenN, stopAtOpen: sc.stopAtOpen, minAge: sc.minAge,
 		failHeadOf: sc.failHeadOf, failHeadN: sc.failHeadN, slowOpenAfterFail: sc.slowOpenAfterFail,
 		jam: sc.jam, burstMin: sc.burstMin, delDelay: sc.delDelay, freezeOnPollOf: sc.crashOnPollOf, freezeAt: sc.crashAt, freezeAfterTx: sc.crashAfterTx, stopAt: sc.stopAt, stopAfterTx: sc.stopAfterTx, stopAtPoll: sc.stopAtPoll}
 	for _, d := range []string{e.out, e.cacheDir, e.stageDir, e.finalDir} {
@@ -1223,6 +1251,11 @@ func veRun(tmp string, sc veScenario) string {
 		}
 	}
 	facts["ineligible_touched"] = fmt.Sprint(inel)
+	if sc.minAge > 0 {
+		e.mu.Lock()
+		facts["young_sent"] = fmt.Sprint(e.youngSent)
+		e.mu.Unlock()
+	}
 	// source files gone although the receiver does not hold their last content
 	lost := 0
 	for name, f := range eligible {
@@ -1320,7 +1353,7 @@ func veRun(tmp string, sc veScenario) string {
 		fmt.Fprintf(&sb, " %s=%s", k, facts[k])
 	}
 	sb.WriteString("\n")
-	if facts["finished"] != "true" || facts["bad_removes"] != "0" || facts["source_lost"] != "0" ||
+	if os.Getenv("VERIF_E2E_EVENTS") != "" || facts["finished"] != "true" || facts["bad_removes"] != "0" || facts["source_lost"] != "0" ||
 		facts["released_without_positive_answer"] != "0" || facts["confirmed_left_unrecorded"] != "0" || facts["ineligible_touched"] != "0" ||
 		(sc.stopKind != "now" && facts["delivered_ok"] != facts["eligible"]) {
 		// keep the interface events of a run that needs attention (comment lines)
@@ -1384,6 +1417,20 @@ func veGen(r *gen.Rand, id string, profile string) veScenario {
 		if r.Chance(1, 3) {
 			sc.faults = append(sc.faults, veFault{kind: kinds[r.Intn(len(kinds))], at: r.Intn(2)})
 		}
+	case "stophash":
+		// an immediate stop arrives in the hashing phase of a scan that found far more files than the hash
+		// workers' hand-over channel holds (one batch per file)
+		sc.files = nil
+		for i := 0; i < 60+r.Intn(40); i++ {
+			sc.files = append(sc.files, veFileSpec{name: fmt.Sprintf("hash.f%02d", i), size: 25 + r.Intn(20), seedb: byte(1 + r.Intn(200)), age: time.Duration(2+r.Intn(50)) * time.Second, eligible: true})
+		}
+		// (a hash batch is a payload's worth of files: several files per batch, more batches than the 3 x threads
+		// the workers and their channel absorb)
+		sc.threads = 1
+		sc.payload, sc.chunk = units200(r), 50
+		sc.stopKind = "now"
+		sc.stopAt = 100000
+		sc.stopAtOpen = 2 + r.Intn(4)
 	case "stopjam":
 		// the receiver refuses every request for the whole run; more small files than the sender's
 		// channels hold, one payload each: after a second or two every stage of the pipeline is parked
@@ -1541,6 +1588,19 @@ func veGen(r *gen.Rand, id string, profile string) veScenario {
 			sc.reuseFaultN = 1 + r.Intn(2)
 		}
 	case "mutate", "vanish":
+		if len(sc.files) > 0 {
+			sc.mutate = sc.files[r.Intn(len(sc.files))].name
+		}
+	case "mutateyoung":
+		// a minimum age is configured; a queued file is rewritten once its first bytes went out: the new
+		// version fails validation (or is noticed by the retry path) while it is still too young to be sent
+		sc.minAge = time.Duration(2000+r.Intn(1000)) * time.Millisecond
+		sc.threads = 1
+		for i := range sc.files {
+			if sc.files[i].age < 8*time.Second {
+				sc.files[i].age += 8 * time.Second
+			}
+		}
 		if len(sc.files) > 0 {
 			sc.mutate = sc.files[r.Intn(len(sc.files))].name
 		}
